@@ -34,6 +34,7 @@ use buffers::trim_byte;
 //@@ include streams_prelude
 //@@ include_stub streams_code
 //@@ include write_prelude
+//@@ include fmt_prelude
 //@@ include request_prelude
 //@@ include request_code
 //@@ include settings_code
@@ -41,6 +42,7 @@ use buffers::trim_byte;
 //@@ include errors_tail
 //@@ include http_tail
 //@@ include body_tail
+//@@ include response_tail
 //@@ include request_tail
 impl Read for BaseStream { fn read(&mut self, b: &mut [u8]) -> io::Result<usize> { unimplemented!() } }
 impl Clone for BaseSettings { fn clone(&self) -> Self { unimplemented!() } }
